@@ -405,5 +405,7 @@ def run(chk, ctx):
     r5(chk, ctx, sp)
     from . import c05
     c05.r1(chk, ctx, p, se)                  # the raw input a Catcher's ResultPath is applied to is the state's raw input, saved for the join
+    from . import round5
+    round5.expander_applied_to_template_only(chk, ctx, "C12.R7")   # 'never corrupt data': members of the data named *.$ are not evaluated
     chk.assume("the third-party jsonpath function does not modify its input (trusted)")
     chk.assume("JSON documents handed to the engine are trees (json.loads output)")
